@@ -28,14 +28,57 @@ type State struct {
 	Globals Globals
 	Obs     string // property-specific observer component (part of the key)
 	lhash   [][16]byte         // cached hash of the canonical rendering per process (zero = not computed)
-	gkey    map[string]gkEntry // cached hash of the canonical rendering per global (valid while the value is the same object)
+	gkey    []gkEntry // cached hash per global, aligned with gnames (valid while the value is the same object)
+	gnames  []string  // sorted global names (shared between states; the set of globals never changes)
 	hash    [16]byte
 	hashed  bool
 }
 
 type gkEntry struct {
-	v tla.Value
-	h [16]byte
+	v     tla.Value
+	h     [16]byte
+	elems map[tla.Value][16]byte // function-valued globals: hash per element object (pointer identity)
+}
+
+// hashGlobal hashes one global.  A function-valued global (the usual `[i \in Nodes |-> ...]`) is
+// hashed from per-element hashes that are cached by element identity, so a step that changes
+// network[j] does not render the other mailboxes again.
+func hashGlobal(n string, v tla.Value, prev gkEntry) (e gkEntry) {
+	defer func() {
+		if recover() != nil { // an unhashable dynamic type (causally wrapped value): plain path
+			e = gkEntry{v: v, h: md5.Sum([]byte(n + "=" + Canon(v)))}
+		}
+	}()
+	if v.IsFunction() && v.AsFunction().Len() > 1 && v.AsFunction().Len() <= 64 {
+		f := v.AsFunction()
+		type kh struct {
+			kc string
+			h  [16]byte
+		}
+		ents := make([]kh, 0, f.Len())
+		elems := make(map[tla.Value][16]byte, f.Len())
+		it := f.Iterator()
+		for !it.Done() {
+			k, el, _ := it.Next()
+			h, ok := prev.elems[el]
+			if !ok {
+				h = md5.Sum([]byte(Canon(el)))
+			}
+			elems[el] = h
+			ents = append(ents, kh{Canon(k), h})
+		}
+		sort.Slice(ents, func(i, j int) bool { return ents[i].kc < ents[j].kc })
+		buf := make([]byte, 0, len(n)+2+len(ents)*24)
+		buf = append(buf, n...)
+		buf = append(buf, "=F"...)
+		for _, x := range ents {
+			buf = append(buf, x.kc...)
+			buf = append(buf, ':')
+			buf = append(buf, x.h[:]...)
+		}
+		return gkEntry{v: v, h: md5.Sum(buf), elems: elems}
+	}
+	return gkEntry{v: v, h: md5.Sum([]byte(n + "=" + Canon(v)))}
 }
 
 func sameValue(a, b tla.Value) (eq bool) {
@@ -114,18 +157,35 @@ func (s *State) Hash() [16]byte {
 		}
 		buf = append(buf, s.lhash[p][:]...)
 	}
-	names := s.globalNames()
-	ng := make(map[string]gkEntry, len(names))
-	for _, n := range names {
+	if len(s.gnames) != len(s.Globals) {
+		s.gnames = s.globalNames()
+		s.gkey = nil
+	}
+	names := s.gnames
+	var ng []gkEntry // copy on first change: the cache slice is shared with the parent state
+	if len(s.gkey) != len(names) {
+		ng = make([]gkEntry, len(names))
+		s.gkey = nil
+	}
+	for i, n := range names {
 		v := s.Globals[n]
-		e, ok := s.gkey[n]
-		if !ok || !sameValue(e.v, v) {
-			e = gkEntry{v, md5.Sum([]byte(n + "=" + Canon(v)))}
+		var e gkEntry
+		if s.gkey != nil {
+			e = s.gkey[i]
 		}
-		ng[n] = e
+		if s.gkey == nil || !sameValue(e.v, v) {
+			e = hashGlobal(n, v, e)
+			if ng == nil {
+				ng = make([]gkEntry, len(names))
+				copy(ng, s.gkey)
+			}
+			ng[i] = e
+		}
 		buf = append(buf, e.h[:]...)
 	}
-	s.gkey = ng
+	if ng != nil {
+		s.gkey = ng
+	}
 	buf = append(buf, s.Obs...)
 	s.hash = md5.Sum(buf)
 	s.hashed = true
@@ -140,7 +200,7 @@ func (s *State) KeyNoObs() string {
 
 
 func (s *State) clone() *State {
-	n := &State{Locals: make([]map[string]tla.Value, len(s.Locals)), Globals: s.Globals, Obs: s.Obs, gkey: s.gkey}
+	n := &State{Locals: make([]map[string]tla.Value, len(s.Locals)), Globals: s.Globals, Obs: s.Obs, gkey: s.gkey, gnames: s.gnames}
 	copy(n.Locals, s.Locals)
 	if s.lhash != nil {
 		n.lhash = make([][16]byte, len(s.lhash))
